@@ -1049,12 +1049,19 @@ fn fee_cases(o: &mut Out, r: &mut Rng, n: usize) {
     o.fee(false, &[], &[], [0, 0, 420_000_000_000, 0]);
     o.fee(true, &[], &[], [0, 420_000_000_000, 0, 1]);
     o.fee(true, &[], &[], [1u64 << 62, 0, 1 << 62, 0]);
-    // usize overflow in the action count (debug profile: arithmetic overflow panic)
-    o.fee(false, &[(true, u64::MAX), (true, 1)], &[], [0, 0, 0, 0]);
-    o.fee(false, &[], &[u64::MAX, 1], [0, 0, 0, 0]);
-    o.fee(false, &[], &[], [u64::MAX, 0, 1, 0]);
-    o.fee(false, &[], &[], [0, 0, u64::MAX, 1]);
-    o.fee(true, &[(true, u64::MAX)], &[u64::MAX], [0, 0, 0, 0]);
+    // usize overflow in the action count: with overflow checks (the debug profile, whose semantics
+    // the model has) this is an arithmetic-overflow panic; the release profile wraps, which is
+    // outside the model's domain, so these five inputs are only run with checks on.
+    if cfg!(debug_assertions) {
+        o.fee(false, &[(true, u64::MAX), (true, 1)], &[], [0, 0, 0, 0]);
+        o.fee(false, &[], &[u64::MAX, 1], [0, 0, 0, 0]);
+        o.fee(false, &[], &[], [u64::MAX, 0, 1, 0]);
+        o.fee(false, &[], &[], [0, 0, u64::MAX, 1]);
+        o.fee(true, &[(true, u64::MAX)], &[u64::MAX], [0, 0, 0, 0]);
+    }
+    // just inside usize: no overflow in either profile
+    o.fee(false, &[(true, u64::MAX - 1), (true, 1)], &[], [0, 0, 0, 0]);
+    o.fee(true, &[], &[u64::MAX], [0, 0, 0, 0]);
     for _ in 0..n {
         let nin = small_len(r);
         let nout = small_len(r);
@@ -1078,12 +1085,12 @@ fn main() {
     let mut r = Rng::new(a.seed, 7);
     let thorough = a.thorough() || a.search;
     corpus(&mut o);
-    fee_cases(&mut o, &mut r, a.budget(600, 20_000));
+    fee_cases(&mut o, &mut r, a.budget(600, 10_000));
     lattice(&mut o, thorough);
-    random_bal(&mut o, &mut r, a.budget(7_000, 300_000));
-    crossing_bal(&mut o, &mut r, a.budget(1_200, 40_000));
-    dust_bal(&mut o, &mut r, a.budget(1_500, 60_000));
-    malformed_bal(&mut o, &mut r, a.budget(500, 20_000));
+    random_bal(&mut o, &mut r, a.budget(7_000, 200_000));
+    crossing_bal(&mut o, &mut r, a.budget(1_200, 30_000));
+    dust_bal(&mut o, &mut r, a.budget(1_500, 40_000));
+    malformed_bal(&mut o, &mut r, a.budget(500, 10_000));
     let classes: Vec<String> = o.classes.iter().map(|(k, v)| format!("\"{}\": {}", k, v)).collect();
     stat(format!(
         "{{\"cases\": {}, \"outcome_classes\": {{{}}}, \"max_inputs\": {}, \"multi_strategy\": {}, \"ephemeral\": {}, \"nu6_3_active\": {}}}",
